@@ -125,14 +125,18 @@ func (e *env) one(uri string, cn, sn []byte, tag string) {
 	e.r.Hit("nonces:" + tag)
 	fail := func(detail string) { e.r.Fail(canon, "", detail) }
 
-	client, err := uapolicy.Symmetric(uri, cn, sn)
-	if err != nil {
-		fail("Symmetric(client): " + err.Error())
-		return
-	}
-	server, err := uapolicy.Symmetric(uri, sn, cn)
-	if err != nil {
-		fail("Symmetric(server): " + err.Error())
+	var client, server *uapolicy.EncryptionAlgorithm
+	var err error
+	if res, msg := h.CatchMsg(func() string {
+		if client, err = uapolicy.Symmetric(uri, cn, sn); err != nil {
+			return "Symmetric(client): " + err.Error()
+		}
+		if server, err = uapolicy.Symmetric(uri, sn, cn); err != nil {
+			return "Symmetric(server): " + err.Error()
+		}
+		return "ok"
+	}); res != "ok" {
+		fail("uapolicy.Symmetric: " + res + " " + msg)
 		return
 	}
 	ck, sk := specKeys(p, "client", cn, sn), specKeys(p, "server", cn, sn)
@@ -200,6 +204,29 @@ func (e *env) one(uri string, cn, sn []byte, tag string) {
 			fail(dir.role + ": the peer does not decrypt the ciphertext")
 		}
 		e.r.Compare(e.d, fmt.Sprintf("dec %s %s %s %s %s", pol, dir.role, h.Hex(cn), h.Hex(sn), h.Hex(ct)), h.Hex(back))
+		// every later message on the same algorithm object uses the derived key and IV again
+		// (Part 6: each chunk is encrypted with the derived InitializationVector), also when a
+		// chunk is decrypted twice or out of order
+		for k := 0; k < 2; k++ {
+			pt2 := e.rnd.Bytes(16 * (1 + e.rnd.Intn(4)))
+			ct2, err := dir.snd.Encrypt(pt2)
+			if err != nil || !bytes.Equal(ct2, cbc(true, dir.k.enc, dir.k.iv, pt2)) {
+				fail(fmt.Sprintf("%s: ciphertext of message %d on the same algorithm object is not AES-CBC with the specification's key and IV", dir.role, k+2))
+			}
+			e.r.Compare(e.d, fmt.Sprintf("enc %s %s %s %s %s", pol, dir.role, h.Hex(cn), h.Hex(sn), h.Hex(pt2)), h.Hex(ct2))
+			ref2 := cbc(true, dir.k.enc, dir.k.iv, pt2)
+			if b2, err := dir.rcv.Decrypt(ref2); err != nil || !bytes.Equal(b2, pt2) {
+				fail(fmt.Sprintf("%s: the peer does not decrypt message %d (reference ciphertext)", dir.role, k+2))
+			}
+			if b1, err := dir.rcv.Decrypt(ct); err != nil || !bytes.Equal(b1, pt) {
+				fail(dir.role + ": the peer does not decrypt the first ciphertext a second time")
+			}
+			sig2, _ := dir.snd.Signature(pt2)
+			if !bytes.Equal(sig2, mac(p.hash, dir.k.sign, pt2)) {
+				fail(dir.role + ": MAC of a later message is not HMAC with the specification's signing key")
+			}
+			e.r.Hit("repeat-on-same-object")
+		}
 
 		// ---- reflected traffic: the sender's own receive keys must not accept it
 		if bytes.Equal(cn, sn) {
@@ -261,8 +288,14 @@ func (e *env) genKeys() {
 	if e.rnd.Chance(10) {
 		a = 100 + e.rnd.Intn(400)
 	}
-	s, k, iv := uapolicy.VerifGenerateKeys(p.chash, secret, seed, a, b, c)
 	canon := fmt.Sprintf("genkeys %s %s %s %d %d %d", p.hname, h.Hex(secret), h.Hex(seed), a, b, c)
+	var s, k, iv []byte
+	if res, msg := h.CatchMsg(func() string { s, k, iv = uapolicy.VerifGenerateKeys(p.chash, secret, seed, a, b, c); return "ok" }); res != "ok" {
+		e.r.Count(canon, true)
+		e.r.Fail(canon, "", "generateKeys panics: "+msg)
+		e.r.Compare(e.d, canon, "panic")
+		return
+	}
 	e.r.Count(canon, true)
 	e.r.Hit("genkeys")
 	if a+b+c == 0 {
